@@ -100,10 +100,18 @@ func ParseTokenRevocationRequest(r *http.Request, revoker Revoker) (token, token
 			return "", "", "", oidc.ErrInvalidClient().WithDescription("auth_method private_key_jwt not supported")
 		}
 		profile, err := VerifyJWTAssertion(r.Context(), req.ClientAssertion, revokerJWTProfile.JWTProfileVerifier(r.Context()))
-		if err == nil {
-			return req.Token, req.TokenTypeHint, profile.Issuer, nil
+		if err != nil {
+			return "", "", "", err
 		}
-		return "", "", "", err
+		// an assertion only authenticates clients that are registered for private_key_jwt
+		client, err := revoker.Storage().GetClientByClientID(r.Context(), profile.Issuer)
+		if err != nil {
+			return "", "", "", oidc.ErrInvalidClient().WithParent(err)
+		}
+		if client.AuthMethod() != oidc.AuthMethodPrivateKeyJWT {
+			return "", "", "", oidc.ErrInvalidClient().WithDescription("private_key_jwt not allowed for this client")
+		}
+		return req.Token, req.TokenTypeHint, profile.Issuer, nil
 	}
 	clientID, clientSecret, ok := r.BasicAuth()
 	if ok {
@@ -117,6 +125,14 @@ func ParseTokenRevocationRequest(r *http.Request, revoker Revoker) (token, token
 		}
 		if err = AuthorizeClientIDSecret(r.Context(), clientID, clientSecret, revoker.Storage()); err != nil {
 			return "", "", "", err
+		}
+		// a secret does not authenticate a client that is registered for private_key_jwt
+		client, err := revoker.Storage().GetClientByClientID(r.Context(), clientID)
+		if err != nil {
+			return "", "", "", oidc.ErrInvalidClient().WithParent(err)
+		}
+		if client.AuthMethod() == oidc.AuthMethodPrivateKeyJWT {
+			return "", "", "", oidc.ErrInvalidClient().WithDescription("client_secret not allowed for this client")
 		}
 		return req.Token, req.TokenTypeHint, clientID, nil
 	}
@@ -132,6 +148,9 @@ func ParseTokenRevocationRequest(r *http.Request, revoker Revoker) (token, token
 			return "", "", "", oidc.ErrInvalidClient().WithDescription("invalid authorization")
 		}
 		return req.Token, req.TokenTypeHint, req.ClientID, nil
+	}
+	if client.AuthMethod() == oidc.AuthMethodPrivateKeyJWT {
+		return "", "", "", oidc.ErrInvalidClient().WithDescription("client_secret not allowed for this client")
 	}
 	if client.AuthMethod() == oidc.AuthMethodPost && !revoker.AuthMethodPostSupported() {
 		return "", "", "", oidc.ErrInvalidClient().WithDescription("auth_method post not supported")
